@@ -24,8 +24,8 @@ RULE = ("explicit-state search: states = contents of two real HDF5 files X, Y (c
         "is_cooler is False WITHOUT raising for every other path of the alphabet, a data set path, a missing path, a missing file; "
         "foreign objects and attributes untouched; an operation on a missing source (no overwrite) touches nothing that existed. "
         "Non-trivial: a transition from a state holding >=1 collection. Distinct by construction (state dedup).")
-BOUNDS = {"quick": "depth 2 from the empty and the seeded initial state; depth 1 over a 5-path alphabet from the linked initial state (soft + hard link to a collection); every cp / cp -w / mv / ln / ln -s operation of the alphabet is also run once through the command line from the seeded and the linked state (depth 1; depth 2 from the linked state in the thorough tier), with `cooler ls` and `cooler ls -l` compared with the listing in every state reached",
-          "thorough": "depth 3 from the empty state (third step restricted to operations on file X, operations on a missing source up to depth 2), depth 2 from the seeded and the linked state; every cp / cp -w / mv / ln / ln -s operation of the alphabet is also run once through the command line from the seeded and the linked state (depth 1; depth 2 from the linked state in the thorough tier), with `cooler ls` and `cooler ls -l` compared with the listing in every state reached"}
+BOUNDS = {"quick": "depth 2 from the empty and the seeded initial state; depth 1 over a 5-path alphabet from the linked initial state (soft + hard link to a collection) and from the mcool initial state (file tagged and laid out as a multi-resolution file, free paths /a and /0); every cp / cp -w / mv / ln / ln -s operation of the alphabet is also run once through the command line from the seeded and the linked state (depth 1; depth 2 from the linked state in the thorough tier), with `cooler ls` and `cooler ls -l` compared with the listing in every state reached",
+          "thorough": "depth 3 from the empty state (third step restricted to operations on file X, operations on a missing source up to depth 2), depth 2 from the seeded, the linked and the mcool state; every cp / cp -w / mv / ln / ln -s operation of the alphabet is also run once through the command line from the seeded and the linked state (depth 1; depth 2 from the linked state in the thorough tier), with `cooler ls` and `cooler ls -l` compared with the listing in every state reached"}
 ASSUMPTIONS = ["excluded from the alphabet (no defined meaning): mv / hard ln whose source is the root group, any operation whose destination "
                "lies inside the source's own subtree or is already occupied (except create and cp(overwrite)), links through links of another file",
                "two files with the same canonical model state have the same futures under every operation of the alphabet"]
@@ -76,6 +76,11 @@ def all_ops(PATHS=PATHS):
 OPS = all_ops()
 PATHS_L = ["/", "/a", "/c", "/h", "/d"]
 OPS_L = all_ops(PATHS_L)     # alphabet of the 'linked' initial state (X: /a = D1, /c soft -> /a, /h hard -> /a; /d free)
+# alphabet of the 'mcool' initial state: X is laid out and tagged like a multi-resolution file (root attributes format=HDF5::MCOOL,
+# /resolutions/2 = D1, /resolutions/4 = D2); /a and /0 are free ('/0' is the group name of the legacy multi-resolution layout)
+PATHS_M = ["/", "/resolutions/2", "/resolutions/4", "/a", "/0"]
+OPS_M = all_ops(PATHS_M)
+ALPHA = {"linked": (OPS_L, PATHS_L), "mcool": (OPS_M, PATHS_M)}
 
 
 def units(tier):
@@ -85,6 +90,8 @@ def units(tier):
             yield {"init": init, "first": k, "depth": 3 if (th and init == "empty") else 2}
     for k in range(len(OPS_L)):
         yield {"init": "linked", "first": k, "depth": 2 if th else 1}
+    for k in range(len(OPS_M)):
+        yield {"init": "mcool", "first": k, "depth": 2 if th else 1}
     # the same operations through the command line (cooler cp | mv | ln [-s] | cp -w), listing through `cooler ls [-l]`
     for init, ops in (("seeded", OPS), ("linked", OPS_L)):
         for k in range(len(ops)):
@@ -323,14 +330,22 @@ def initial(init, d):
         m.op_create("X", "/a", "D1", "w")
         m.op_ln("X", "/a", "X", "/c", soft=True)
         m.op_ln("X", "/a", "X", "/h", soft=False)
+    elif init == "mcool":
+        import cooler
+        for k, (p, d) in enumerate((("/resolutions/2", "D1"), ("/resolutions/4", "D2"))):
+            bins, pix = data_content(d)
+            cooler.create_cooler(w.path("X") + "::" + p, build.bins_df(bins), fx.frame(pix), columns=["count", "score"], dtypes={"score": float},
+                                 ordered=True, mode="a" if k else "w", **META[d])
+            m.op_create("X", p, d, "a" if k else "w")
+        with h5py.File(w.path("X"), "r+") as f:
+            f.attrs.update({"format": "HDF5::MCOOL", "format-version": 2})
     return w, m
 
 
 def run(unit, R, tier, only=None):
     depth = unit["depth"]
     seeded = unit["init"] == "seeded"
-    OPS = OPS_L if unit["init"] == "linked" else globals()["OPS"]
-    paths = PATHS_L if unit["init"] == "linked" else PATHS
+    OPS, paths = ALPHA.get(unit["init"], (globals()["OPS"], PATHS))
     root = scratch.sub(f"c15_{os.getpid()}_{unit['init']}_{unit['first']}_{unit.get('via', 'api')}")
     try:
         w0, m0 = initial(unit["init"], os.path.join(root, "s0"))
